@@ -168,6 +168,18 @@ func rangeMut(m map[K]V, kind, n int) {
 		return false
 	}
 	var yielded, deleted, inserted []int
+	// fixed targets: the two smallest ordinary ids present
+	t0, t1 := -1, -1
+	for _, p := range present {
+		if p >= 100000 {
+			continue
+		}
+		if t0 < 0 || p < t0 {
+			t0, t1 = p, t0
+		} else if t1 < 0 || p < t1 {
+			t1 = p
+		}
+	}
 	step := 0
 	cleared := false
 	for k, v := range m {
@@ -186,56 +198,69 @@ func rangeMut(m map[K]V, kind, n int) {
 			failf("range yielded entry " + itoa(int64(id)) + " after clear")
 		}
 		yielded = append(yielded, id)
-		if step != 2 {
-			continue
-		}
+		// mutations are chosen so that the FINAL map does not depend on the iteration order (the reference run must be reproducible)
 		switch kind {
 		case 0:
-			for i := 7000; i < 7040; i++ {
-				m[key(i)] = val(i)
-				inserted = append(inserted, i)
-			}
-		case 1:
-			delete(m, k)
-		case 2:
-			for _, p := range present {
-				if !has(yielded, p) && p < 100000 {
-					delete(m, key(p))
-					deleted = append(deleted, p)
-					break
+			if step == 2 {
+				for i := 7000; i < 7040; i++ {
+					m[key(i)] = val(i)
+					inserted = append(inserted, i)
 				}
 			}
-		case 3:
-			if id < 100000 {
-				m[k] = val(id)
+		case 1: // delete the entry just visited, when it is the fixed target t0
+			if id == t0 {
+				delete(m, k)
 			}
-			for _, p := range present {
-				if !has(yielded, p) && p < 100000 {
-					m[key(p)] = val(p)
-					break
+		case 2: // at the first step delete whichever of t0/t1 has not been reached; the other one is deleted after the loop
+			if step == 1 && t1 >= 0 {
+				victim := t1
+				if id == t1 {
+					victim = t0
+				}
+				delete(m, key(victim))
+				deleted = append(deleted, victim)
+			}
+		case 3: // re-assign the current entry and the fixed entry t1 (reached or not)
+			if step == 2 {
+				if id < 100000 {
+					m[k] = val(id)
+				}
+				if t1 >= 0 {
+					m[key(t1)] = val(t1)
 				}
 			}
 		case 4:
-			clear(m)
-			cleared = true
-			for _, p := range present {
-				if !has(yielded, p) {
-					deleted = append(deleted, p)
+			if step == 2 {
+				clear(m)
+				cleared = true
+				for _, p := range present {
+					if p != 8000 {
+						deleted = append(deleted, p)
+					}
 				}
-			}
-			m[key(8000)] = val(8000)
-			inserted = append(inserted, 8000)
-			// an entry 8000 yielded before the clear is gone; the one just created is a new entry and may be produced
-			for i, y := range yielded {
-				if y == 8000 {
-					yielded[i] = -8000
+				m[key(8000)] = val(8000)
+				inserted = append(inserted, 8000)
+				// an entry 8000 that existed before the clear is gone; the one just created is a new entry and may (or may not) be produced
+				for i, y := range yielded {
+					if y == 8000 {
+						yielded[i] = -8000
+					}
+				}
+				for i, y := range present {
+					if y == 8000 {
+						present[i] = -8000
+					}
 				}
 			}
 		}
 	}
+	if kind == 2 && t1 >= 0 {
+		delete(m, key(t0))
+		delete(m, key(t1))
+	}
 	// every entry present for the whole loop must have been yielded exactly once
 	for _, p := range present {
-		if !has(deleted, p) && !has(yielded, p) && !(kind == 1 && false) {
+		if p != -8000 && !has(deleted, p) && !has(yielded, p) {
 			failf("range skipped entry " + itoa(int64(p)) + " that was present for the whole loop")
 		}
 	}
